@@ -28,7 +28,10 @@ def run(chk: Check):
     if r.error is None:
         raise MachineryError("the listing-order tuner should violate Aligned/OrderInvariant")
     traces = D.direct_traces(rng, quick=chk.quick)
-    traces += D.engine_traces(gs.NUTSKernel, ["zz", "aa"], ["mm", "Beta"], True, seed=chk.seed)
+    # two slow epochs with *identical* configs: each must use its own history
+    traces += D.engine_traces(gs.NUTSKernel, ["zz", "aa"], ["mm", "Beta"], True, seed=chk.seed, slow=(8, 8))
+    # a mass-matrix kernel next to a kernel that does not need the history
+    traces += D.engine_traces(gs.HMCKernel, ["zz", "aa"], ["mm"], True, seed=chk.seed + 9, chains=1, companion="rw")
     if not chk.quick:
         traces += D.engine_traces(gs.HMCKernel, ["zz", "aa"], ["mm", "Beta"], False, seed=chk.seed + 1)
         traces += D.engine_traces(gs.NUTSKernel, ["k", "b1", "Z"], ["alpha_2"], False, seed=chk.seed + 2, slow=(9, 9, 12))
